@@ -20,8 +20,8 @@ FILES = ["src/stereomolgraph/algorithms/isomorphism.py", "src/stereomolgraph/exp
 FUNCTIONS = ["vf2pp_all_isomorphisms", "_sanity_check_and_init", "_matching_order", "_find_candidates", "_graph_feasibility",
              "_stereo_feasibility", "_stereo_change_feasibility", "_update_state", "_revert_state", "topological_symmetry_number"]
 BOUNDS = {"quick": "A: small family over {0,1,2} per class and templates star4/lonepair/dbond/ring4/sn2 (highly symmetric ligand patterns included); "
-                   "B: A, two renamed copies, every family member on the same atom set; 3 label modes; stereo on/off, stereo_change on/off",
-          "thorough": "MG over {0,1,2,3}; templates star5, star6 (48 automorphisms), twocentre"}
+                   "B: A, two renamed copies, every family member on the same atom set; 3 label modes; stereo on/off, stereo_change on/off; regular cages (cubic on 8 atoms, 4-regular on 8 and 9 atoms): complete enumeration between 400 seeded pairs of numberings of each cage, count = |Aut| by brute force",
+          "thorough": "MG over {0,1,2,3}; templates star5, star6 (48 automorphisms), twocentre; 2400 pairs of numberings per cage"}
 OUTSIDE = "subgraph=True mode (its stereo feasibility functions are stubs in the source); graphs beyond the bounds; pairs with unspecified parities when stereo=True"
 ASSUMPTIONS = C02.ASSUMPTIONS + ['the raw enumerator is not required to look at bond reaction roles (they reach it only through caller-supplied labels); the oracle ignores roles and uses the same labels']
 
@@ -186,9 +186,55 @@ def hard(i, j, ri, cls):
     return None
 
 
+_AUT = {}
+
+
+def cages(f, i, blk, cls):
+    """complete enumeration between numberings of the same k-regular cage (every cubic graph on 8 atoms, every 4-regular graph on 8 and 9 atoms), C02.CAGE_BLOCK seeded
+    numberings per call: every yielded mapping must be a bond-preserving bijection, none twice, and their number must be |Aut| (brute force)"""
+    cname = gl.CLS_NAMES[cls]
+    from stereomolgraph.algorithms.isomorphism import vf2pp_all_isomorphisms
+    n, deg = C02.CAGE_FAMS[f]
+    key = (n, deg, i)
+    if key not in _AUT:
+        s0 = gl.snap(gl.build(tmpl.regular_spec("MG", n, deg, i, 0)))
+        _AUT[key] = sum(1 for _ in iso.all_isomorphisms(s0, s0))
+    for r in range(blk * C02.CAGE_BLOCK, (blk + 1) * C02.CAGE_BLOCK):
+        ga, gb = gl.build(tmpl.regular_spec(cname, n, deg, i, r)), gl.build(tmpl.regular_spec(cname, n, deg, i, 7 * r + 3))
+        what = f"{deg}-regular {n}-atom cage #{i}: numbering {r} vs numbering {7 * r + 3}"
+        try:
+            got = list(vf2pp_all_isomorphisms(ga, gb))
+        except Exception as e:
+            return f"{what}: enumeration raised {type(e).__name__}: {e}"
+        ba, bb = {frozenset(b) for b in ga.bonds}, {frozenset(b) for b in gb.bonds}
+        seen = set()
+        for m in got:
+            k = tuple(sorted(m.items()))
+            if k in seen:
+                return f"{what}: mapping {m} is yielded twice"
+            seen.add(k)
+            if set(m) != set(ga.atoms) or set(m.values()) != set(gb.atoms) or len(set(m.values())) != len(m):
+                return f"{what}: yielded mapping {m} is not a bijection of the atom sets"
+            bad = [tuple(b) for b in ba if frozenset(m[x] for x in b) not in bb]
+            if bad:
+                return f"{what}: yielded mapping {m} sends bonds {bad[:3]} onto non-bonded pairs; bonds A {sorted(tuple(sorted(b)) for b in ba)}"
+        if len(got) != _AUT[key]:
+            return f"{what}: {len(got)} mappings yielded, brute force finds {_AUT[key]} (all yielded ones are valid, so some are missing)"
+        if cname == "SMG" and r == blk * C02.CAGE_BLOCK:
+            msg = _symmetry_number(ga, gl.snap(ga))
+            if msg:
+                return msg
+    return None
+
+
 def plan(tier, seed):
     units = []
     nsk = len(tmpl.SKELETON_NAMES)
+    for (n, k) in C02.CAGE_FAMS:
+        tmpl.regular_graphs(n, k)
+    units.append(Sel(name="regular_cages", func="vp.props.C05:cages",
+                     params={"f": (0, 3), "i": (0, 16), "blk": (0, 10 if tier == "quick" else 60), "cls": (0, 2)},
+                     pre=["f == 2 or i < 6", "cls == 0 or blk < 2"], shard_by=[], timeout=1500, nontrivial="blk > 0"))
     units.append(Sel(name="hard_skeletons", func="vp.props.C05:hard",
                      params={"i": (0, nsk), "j": (0, nsk), "ri": (0, 3 if tier == "quick" else 8), "cls": (0, 2)},
                      pre=["i == j or (i, j) in ((1, 2), (2, 1), (3, 4), (4, 3), (7, 8), (8, 7), (7, 9), (9, 8))"], shard_by=[], timeout=1500, nontrivial="ri > 0"))
